@@ -75,15 +75,30 @@ func init() {
 		}
 		return in.callSSA(caller, fn, args, nil)
 	})
-	cmp := func(name string, f func(in *Interp, a, b *smt.Term) *smt.Term) {
+	cmp := func(name string, cmpf func(in *Interp, a, b *smt.Term) *smt.Term) {
 		reg("(time.Time)."+name, func(in *Interp, caller *frame, pos token.Pos, fn *ssa.Function, args []Value) Value {
 			a, ok1 := args[0].(AbsTime)
 			b, ok2 := args[1].(AbsTime)
 			if ok1 && ok2 {
-				return f(in, a.NS, b.NS)
+				return cmpf(in, a.NS, b.NS)
 			}
 			if ok1 || ok2 {
-				unsupported("time.Time.%s between an abstract and a concrete instant", name)
+				// the other side is an ordinary (concrete) time: take its Unix nanoseconds from the real code
+				var other Value
+				if ok1 {
+					other = args[1]
+				} else {
+					other = args[0]
+				}
+				f := in.findMethod(fn.Signature.Recv().Type(), "UnixNano")
+				if f == nil {
+					unsupported("time.Time.UnixNano not found")
+				}
+				ns := term(in.callSSA(caller, f, []Value{other}, nil))
+				if ok1 {
+					return cmpf(in, a.NS, ns)
+				}
+				return cmpf(in, ns, b.NS)
 			}
 			return in.callSSA(caller, fn, args, nil)
 		})
